@@ -14,26 +14,39 @@
 (* SwapLeaf (environment) may fire once, right before any step that touches the file system: it replaces `target`     *)
 (* (the regular file the name resolves to; or its .gz sibling; or the inside-pointing link the name ends in) by a      *)
 (* symbolic link to the secret.  Cached modes run the lookup twice on the same object (round 2 meets the cache).       *)
-(* Invariant Safe: whatever is returned carries the tag of a regular file inside the root of the mode.                *)
+(* Leaf kinds: besides regular files, directories and links FS0 holds a named pipe, a unix socket and a link to       *)
+(* /dev/null in each root (segments pipe, link_pipe, sock, link_null); what open()/read() do with them is in Open.     *)
+(* HISTORIES: a case is `hist`, a sequence of operations performed BETWEEN consecutive lookups of the same name on     *)
+(* ONE Assets object (action Between): "none" (cached modes: round 2 meets the cache), "dirout" (the intermediate      *)
+(* directory <root>/dir is moved out of the tree, a link to the outside directory takes its name), "dirback"           *)
+(* (undone), "reload" (Assets::reload()).  Every valid sequence of <= MaxHist operations that contains a dirout is      *)
+(* enumerated, in all four modes, for every name of <= MaxHistSegs segments whose resolution the dirout changes.        *)
+(* Invariant Safe: whatever a lookup returns carries the tag of a regular file that was inside the root of the mode    *)
+(* when that lookup started (`inside`) - for every lookup of the history.                                             *)
 (* Deviations (default FALSE) show that the invariant sees the corresponding defects:                                 *)
 (*   Dev_NoNoFollow          open without O_NOFOLLOW                                                                  *)
 (*   Dev_LexicalContainment  containment tested on the candidate as written (links not resolved)                       *)
 (*   Dev_PrefixContainment   containment by string prefix of the last root component (sibling "static2" passes)       *)
+(*   Dev_NoIsReg             filesystem static lookup without the is_regular_file test (a pipe is opened and read)     *)
+(*   Dev_ResolveMemo         filesystem static lookup remembers name -> resolved path and skips resolution and         *)
+(*                           containment on a hit (forgotten by reload only)                                           *)
 EXTENDS AssetOps, Json
 
-CONSTANTS MaxSegs, MaxSwapSegs, Dev_NoNoFollow, Dev_LexicalContainment, Dev_PrefixContainment
+CONSTANTS MaxSegs, MaxSwapSegs, MaxHist, MaxHistSegs,
+          Dev_NoNoFollow, Dev_LexicalContainment, Dev_PrefixContainment, Dev_NoIsReg, Dev_ResolveMemo
 
 Segs == {"a", "dir", "DOTDOT", "DOT", "EMPTY", "link_in", "link_out", "dlink_out", "dlink_sib", "link_x", "PCT",
-         "NUL", "BSL", "LONG", "ABS", "nope"}
+         "NUL", "BSL", "LONG", "ABS", "nope", "pipe", "link_pipe", "sock", "link_null"}
 Names == UNION {[1..n -> Segs] : n \in 1..MaxSegs}
 
-VARIABLES mode, segs, swap, target, fs, pc, round, resolved, fd, tag, gz, cache, swapAt, outs
-vars == <<mode, segs, swap, target, fs, pc, round, resolved, fd, tag, gz, cache, swapAt, outs>>
+VARIABLES mode, segs, swap, target, hist, fs, pc, round, resolved, fd, tag, gz, cache, memo, inside, swapAt, outs
+vars == <<mode, segs, swap, target, hist, fs, pc, round, resolved, fd, tag, gz, cache, memo, inside, swapAt, outs>>
 
 Root == RootOf(mode)
-Rounds == IF mode \in {"fs_cached", "templates"} THEN 2 ELSE 1
+Rounds == Len(hist) + 1
 HasGz == mode # "templates"
 Cached == mode \in {"fs_cached", "templates"}
+FsStatic == mode \in {"fs_cached", "fs_perreq"}
 
 \* ---- the request as the code and the OS see it --------------------------------------------------------------
 Comp(s) == CASE s = "EMPTY" -> "" [] s = "DOT" -> "." [] s = "DOTDOT" -> ".." [] s = "PCT" -> "a%2f.."
@@ -69,22 +82,41 @@ Plans(ss) == {<<"none", <<>>>>} \cup
               ELSE {<<"leaf", t>> : t \in LeafTarget(ss)} \cup {<<"gz", t>> : t \in GzTarget(ss)} \cup
                    {<<"relink", t>> : t \in RelinkTarget(ss)})
 
+\* ---- histories ----------------------------------------------------------------------------------------------
+HistOps == {"dirout", "dirback", "reload"}
+RECURSIVE ValidHist(_, _)
+ValidHist(h, out) == IF h = <<>> THEN TRUE
+                     ELSE CASE Head(h) = "dirout" -> ~out /\ ValidHist(Tail(h), TRUE)
+                            [] Head(h) = "dirback" -> out /\ ValidHist(Tail(h), FALSE)
+                            [] OTHER -> ValidHist(Tail(h), out)
+Hists == {h \in UNION {[1..n -> HistOps] : n \in 1..MaxHist} : ValidHist(h, FALSE) /\ \E i \in DOMAIN h : h[i] = "dirout"}
+\* the names a dirout matters for: what they resolve to changes with it
+HistName(ss) == Len(ss) <= MaxHistSegs /\ Candidate(FS0, ss) # Candidate(DirOut(FS0, mode), ss)
+DefaultHist == IF Cached THEN <<"none">> ELSE <<>>
+
 Init == /\ mode \in Modes
         /\ segs \in Names
         /\ \E pl \in Plans(segs) : swap = pl[1] /\ target = pl[2]
+        /\ hist \in {DefaultHist} \cup (IF swap = "none" /\ HistName(segs) THEN Hists ELSE {})
         /\ fs = FS0 /\ pc = "lex" /\ round = 1 /\ resolved = <<>> /\ fd = <<>> /\ tag = 0 /\ gz = 0 /\ cache = <<>>
+        /\ memo = <<>> /\ inside = InsideTagsOf(FS0, mode)
         /\ swapAt = <<>> /\ outs = <<>>
 
 \* ---- one lookup ---------------------------------------------------------------------------------------------
 Finish(res, t, g) ==
-    /\ outs' = Append(outs, [res |-> res, tag |-> t, gz |-> g])
-    /\ IF round < Rounds THEN round' = round + 1 /\ pc' = "lex" ELSE round' = round /\ pc' = "done"
+    /\ outs' = Append(outs, [res |-> res, tag |-> t, gz |-> g,
+                             ok |-> (res = "found" => t \in inside /\ (g # 0 => g \in inside))])
+    /\ round' = round /\ pc' = (IF round < Rounds THEN "between" ELSE "done")
     /\ resolved' = <<>> /\ fd' = <<>> /\ tag' = 0 /\ gz' = 0
-Keep == UNCHANGED <<mode, segs, swap, target, fs, swapAt>>
+Keep0 == UNCHANGED <<mode, segs, swap, target, hist, fs, inside, swapAt>>
+Keep == Keep0 /\ UNCHANGED memo
 Goto(p) == pc' = p /\ UNCHANGED <<round, outs, resolved, fd, tag, gz>>
 
 Lex == /\ pc = "lex"
-       /\ IF LexRejected(segs) THEN Finish("rejected", 0, 0) ELSE Goto("exists")
+       /\ IF LexRejected(segs) THEN Finish("rejected", 0, 0)
+          ELSE IF Dev_ResolveMemo /\ FsStatic /\ memo # <<>>
+               THEN resolved' = memo /\ pc' = "isreg" /\ UNCHANGED <<round, outs, fd, tag, gz>>
+          ELSE Goto("exists")
        /\ UNCHANGED cache /\ Keep
 Exists == /\ pc = "exists"
           /\ IF Candidate(fs, segs) = Err THEN Finish("refused", 0, 0) ELSE Goto("realpath")
@@ -101,18 +133,23 @@ StrPrefixUnder(base, p) == /\ Len(p) >= Len(base) /\ SubSeq(p, 1, Len(base) - 1)
                            /\ p[Len(base)] \in {Last(base), Last(base) \o "2"}
 ContainedStep == /\ pc = "contained"
                  /\ LET ok == IF Dev_PrefixContainment THEN StrPrefixUnder(Root, resolved) ELSE IsUnder(Root, resolved) IN
-                    IF ok THEN Goto("isreg") ELSE Finish("rejected", 0, 0)
+                    IF ok THEN Goto(IF Dev_NoIsReg /\ FsStatic THEN "cache" ELSE "isreg") ELSE Finish("rejected", 0, 0)
                  /\ UNCHANGED cache /\ Keep
 IsReg == /\ pc = "isreg"
          /\ LET t == Resolve(fs, <<>>, resolved) IN
-            IF t # Err /\ fs[t].k = "file" THEN Goto("cache") ELSE Finish("refused", 0, 0)
-         /\ UNCHANGED cache /\ Keep
+            IF t # Err /\ fs[t].k = "file"
+            THEN Goto("cache") /\ memo' = (IF Dev_ResolveMemo /\ FsStatic THEN resolved ELSE memo)
+            ELSE Finish("refused", 0, 0) /\ UNCHANGED memo
+         /\ UNCHANGED cache /\ Keep0
 CacheStep == /\ pc = "cache"
              /\ IF Cached /\ cache # <<>> THEN Finish("found", cache[1], cache[2]) ELSE Goto("open")
              /\ UNCHANGED cache /\ Keep
+\* open() + read(): a regular file yields its bytes; a directory opens but read() fails (EISDIR); a socket does not open
+\* (ENXIO); a pipe opens as soon as a writer exists and yields the writer's bytes (its own tag, never a file's); a
+\* character device opens (the tag 0 of /dev/null: no bytes)
 Open == /\ pc = "open"
         /\ LET n == OpenNoFollow(fs, resolved, Dev_NoNoFollow) IN
-           IF n = Err \/ fs[n].k # "file" THEN Finish("refused", 0, 0)
+           IF n = Err \/ fs[n].k \notin {"file", "fifo", "dev"} THEN Finish("refused", 0, 0)
            ELSE fd' = n /\ pc' = "read" /\ UNCHANGED <<round, outs, resolved, tag, gz>>
         /\ UNCHANGED cache /\ Keep
 \* the descriptor keeps naming the file that was opened, whatever happens to the directory entry afterwards
@@ -138,15 +175,24 @@ SwapPcs == {"exists", "realpath", "isreg", "open", "read", "gzstat", "gzopen"}
 SwapLeaf == /\ swap # "none" /\ swapAt = <<>> /\ pc \in SwapPcs
             /\ fs' = [fs EXCEPT ![target] = L(Secret)]
             /\ swapAt' = <<round, pc>>
-            /\ UNCHANGED <<mode, segs, swap, target, pc, round, resolved, fd, tag, gz, cache, outs>>
+            /\ UNCHANGED <<mode, segs, swap, target, hist, pc, round, resolved, fd, tag, gz, cache, memo, inside, outs>>
 
-Next == Lex \/ Exists \/ Realpath \/ ContainedStep \/ IsReg \/ CacheStep \/ Open \/ Read \/ GzStat \/ GzOpen \/ SwapLeaf
+\* between two lookups of a history; `inside` is what the next lookup may return
+Between == /\ pc = "between"
+           /\ LET op == hist[round] IN
+              /\ fs' = (CASE op = "dirout" -> DirOut(fs, mode) [] op = "dirback" -> DirBack(fs, mode) [] OTHER -> fs)
+              /\ cache' = (IF op = "reload" THEN <<>> ELSE cache)
+              /\ memo' = (IF op = "reload" THEN <<>> ELSE memo)
+           /\ inside' = InsideTagsOf(fs', mode)
+           /\ round' = round + 1 /\ pc' = "lex"
+           /\ UNCHANGED <<mode, segs, swap, target, hist, swapAt, outs, resolved, fd, tag, gz>>
+
+Next == Lex \/ Exists \/ Realpath \/ ContainedStep \/ IsReg \/ CacheStep \/ Open \/ Read \/ GzStat \/ GzOpen \/ SwapLeaf \/ Between
 Spec == Init /\ [][Next]_vars
 
 \* ---- the property -------------------------------------------------------------------------------------------
-OutOk(o) == o.res = "found" => o.tag \in InsideTags(mode) /\ (o.gz # 0 => o.gz \in InsideTags(mode))
-Safe == \A i \in 1..Len(outs) : OutOk(outs[i])
+Safe == \A i \in 1..Len(outs) : outs[i].ok
 \* a plan whose swap never fired is the same case as the plan without swap: only completed plans are emitted
 Emit == pc # "done" \/ (swap # "none" /\ swapAt = <<>>) \/
-        PrintT(ToJson([mode |-> mode, segs |-> segs, swap |-> swap, target |-> target, at |-> swapAt, outs |-> outs]))
+        PrintT(ToJson([mode |-> mode, segs |-> segs, swap |-> swap, target |-> target, at |-> swapAt, hist |-> hist, outs |-> outs]))
 =============================================================================
